@@ -20,7 +20,7 @@ PANICKY_STD = (
     "std::vec::Vec::insert", "std::vec::Vec::split_off", "std::vec::Vec::truncate_front",
     "core::slice::split_at", "core::slice::split_at_mut", "core::slice::copy_from_slice",
     "core::str::split_at", "std::string::String::remove", "std::string::String::insert",
-    "std::collections::VecDeque::remove", "core::slice::swap", "std::ffi::CString::new",
+    "std::collections::VecDeque::remove", "core::slice::swap",
     "std::process::exit", "std::process::abort", "std::iter::Iterator::step_by",
     "core::slice::chunks", "core::slice::windows", "std::string::String::drain",
     "core::unicode::conversions", "std::char::from_digit", "std::env::args",
